@@ -1,2 +1,110 @@
-(* C05 -- placeholder *)
-From MsiModel Require Import Base Package.
+(* C05 -- Stored tables always keep unique, ordered keys and valid cells.
+   tables_sorted_valid: every table of the table map reads back as a list of rows that is STRICTLY ascending by
+   primary key (hence no two rows share a key) and whose every cell is valid for its column (an accepted empty string is
+   stored as null: the C01 identification).  It holds in every reachable state; the reopened state is reachable again
+   (C01), so it holds after saving and reopening too.
+   Statements only; every proof is `exact <lemma>` from theories/. *)
+From Coq Require Import Sorting.Sorted Permutation.
+From MsiModel Require Import Base Sexp Value Expr Category Column CodePage Pool Table Container StreamName Propset Summary Query Package PoolProofs TableProofs QueryProofs DbInv CatalogProofs PropsetCodecProofs PackageProofs PkgInv UpdateRefine PkgInv2 InsertRefine DeleteRefine DmlPkgProofs DropTableProofs MiscOpsProofs ReopenProofs CreateTableLemmas CreateTableProofs StreamProofs Reach KnownFindings.
+From MsiGen Require Import GenConsts GenCatalog GenStreamName.
+Open Scope N_scope.
+
+(* the property, for every reachable package *)
+Theorem C05_reachable :
+  forall (prof : profile) (k : pkg), reachable prof k -> tables_sorted_valid prof k.
+Proof. exact reachable_sorted_valid. Qed.
+
+(* the reopened package is reachable (so C05_reachable applies to it) and shows the same rows *)
+Theorem C05_after_reopen :
+  forall (prof : profile) (k : pkg),
+         reachable prof k ->
+         exists k1 k2 : pkg,
+           pkg_flush k = Some k1 /\
+           pkg_open prof (k_cont k1) = Ok k2 /\
+           same_obs prof k k2 /\ same_obs prof k k1 /\ reachable prof k2 /\ pkg_flush k2 = Some k2.
+Proof. exact reachable_roundtrip. Qed.
+
+(* INSERT: result strictly sorted, valid *)
+Theorem C05_insert :
+  forall (prof : profile) (k : pkg) (tn : str) (t : table) (rows : list (list value)) (k' : pkg),
+         PInv2 prof k ->
+         user_table_name tn ->
+         find_table (k_tabs k) tn = Some t ->
+         Forall (Forall value_storable) rows ->
+         pkg_insert prof k tn rows = (k', Ok tt) ->
+         PInv2 prof k' /\
+         others_untouched prof k k' tn /\
+         (exists old new : list (list value),
+            tvals prof (the_db k) t = Ok old /\
+            tvals prof (the_db k') t = Ok new /\
+            Permutation new (old ++ map (map normalize_value) rows) /\ sorted_by_key t new /\ rows_valid t new).
+Proof. exact pkg_insert_ok. Qed.
+
+(* UPDATE: likewise, also when a key column is assigned (re-sorted, duplicates rejected) *)
+Theorem C05_update :
+  forall (prof : profile) (k : pkg) (tn : str) (t : table) (ups : list (str * value)) 
+           (cond : option ast) (k' : pkg),
+         PInv2 prof k ->
+         user_table_name tn ->
+         find_table (k_tabs k) tn = Some t ->
+         ups_wf ups ->
+         pkg_update prof k tn ups cond = (k', Ok tt) ->
+         PInv2 prof k' /\
+         others_untouched prof k k' tn /\
+         (exists old new : list (list value),
+            tvals prof (the_db k) t = Ok old /\
+            tvals prof (the_db k') t = Ok new /\
+            (if touches_key t ups
+             then Permutation new (map (upd_row t ups cond) old)
+             else new = map (upd_row t ups cond) old) /\ sorted_by_key t new /\ rows_valid t new).
+Proof. exact pkg_update_ok. Qed.
+
+Theorem C05_update_nonkey :
+  forall (t : table) (ups : list (str * value)) (cond : option ast) (old : list (list value)),
+         touches_key t ups = false ->
+         Forall (fun r : list value => length r = length (t_cols t)) old ->
+         sorted_by_key t old -> sorted_by_key t (map (upd_row t ups cond) old).
+Proof. exact update_keeps_sorted. Qed.
+
+(* DELETE: a filtered sorted list *)
+Theorem C05_delete :
+  forall (prof : profile) (k : pkg) (tn : str) (t : table) (cond : option ast) (k' : pkg),
+         PInv2 prof k ->
+         user_table_name tn ->
+         find_table (k_tabs k) tn = Some t ->
+         pkg_delete prof k tn cond = (k', Ok tt) ->
+         PInv2 prof k' /\
+         others_untouched prof k k' tn /\
+         (exists old : list (list value),
+            tvals prof (the_db k) t = Ok old /\
+            tvals prof (the_db k') t = Ok (filter (fun r : list value => negb (holds_v t cond r)) old)).
+Proof. exact pkg_delete_ok. Qed.
+
+(* the BTreeMap model stays strictly sorted *)
+Theorem C05_btreemap :
+  forall (m : keyed) (k : list value) (row : list vref), keyed_sorted m -> keyed_sorted (keyed_insert m k row).
+Proof. exact keyed_insert_sorted. Qed.
+
+(* strictly sorted => unique keys *)
+Theorem C05_unique :
+  forall m : keyed, keyed_sorted m -> NoDup (map fst m).
+Proof. exact sorted_nodup. Qed.
+
+Theorem C05_key_order_total :
+  forall a b : list value, key_cmp b a = CompOpp (key_cmp a b).
+Proof. exact key_cmp_antisym. Qed.
+
+Theorem C05_key_order_trans :
+  forall a b c : list value, key_lt a b -> key_lt b c -> key_lt a c.
+Proof. exact key_lt_trans. Qed.
+
+Print Assumptions C05_reachable.
+Print Assumptions C05_after_reopen.
+Print Assumptions C05_insert.
+Print Assumptions C05_update.
+Print Assumptions C05_update_nonkey.
+Print Assumptions C05_delete.
+Print Assumptions C05_btreemap.
+Print Assumptions C05_unique.
+Print Assumptions C05_key_order_total.
+Print Assumptions C05_key_order_trans.
